@@ -3,7 +3,7 @@ C08 — Compiler and generator terminate with a result or an error on every inpu
 
 Property theorems only. Model: M-Compile. The linker and the generator's recursions over the
 compiled graph are indexed by `fuel` = nesting depth of calls; `Res.fuel` ≙ Go stack overflow.
-The four input shapes on which the code did not terminate (findings D4, D5, D6, D40) are
+The five input shapes on which the code did not terminate (findings D4, D5, D6, D40, D74) are
 repaired; the model follows the repaired code and the former witnesses are regression inputs
 that now end in an error (`former_divergence_rejected`). The syntactic part (the parser
 returns a program or errors) is C11's model; the runtime part (no panic in library code) is
@@ -38,10 +38,14 @@ theorem compile_total_partial {pre : Bool} {o : Orders} {src : Program} {p : GPr
     ∀ fuel, linkBound p ≤ fuel → compileWith pre fuel o src ≠ .fuel :=
   compileWith_total_typesOnly hg ht
 
-/-- **Regression witnesses (D4, D6, D40, D5 — repaired): the former non-terminating inputs end
+/-- **Regression witnesses (D4, D6, D40, D5, D74 — repaired): the former non-terminating inputs end
 in an error.** On `const i32 a = b  const i32 b = a`, `const list<i32> c = c` (and the same
 through a struct default), `struct S {1: optional S f = {}}` and
-`service A extends B {}  service B extends A {}` the linker used to recurse without bound (or
+`service A extends B {}  service B extends A {}`, and the two-file program of D74 (two constants
+defined as each other whose struct types carry defaults referring to the other, reached from an
+including file before those types are linked — found while attempting the totality proof for
+programs with constants: the cast of a referenced constant's value was not covered by the
+in-progress flag) the linker used to recurse without bound (or
 compile, after which the generator did). With the in-progress flags of the repaired code each
 is rejected by every fuel from 30 on, and never accepted — so the generator is not reached. -/
 theorem former_divergence_rejected :
@@ -50,9 +54,10 @@ theorem former_divergence_rejected :
     (∀ fuel, 30 ≤ fuel → compile fuel [] progD6default = .err) ∧
     (∀ fuel, 30 ≤ fuel → compile fuel [] progD40 = .err) ∧
     (∀ fuel, 30 ≤ fuel → compile fuel [] progD5 = .err) ∧
+    (∀ fuel, 30 ≤ fuel → compile fuel [] progD74 = .err) ∧
     (∀ fuel, (compile fuel [] progD5).isOk = false) ∧ (∀ fuel, (compile fuel [] progD6list).isOk = false) :=
   ⟨(rejected_of_err err_D4).1, (rejected_of_err err_D6list).1, (rejected_of_err err_D6default).1,
-   (rejected_of_err err_D40).1, (rejected_of_err err_D5).1, (rejected_of_err err_D5).2,
+   (rejected_of_err err_D40).1, (rejected_of_err err_D5).1, (rejected_of_err err_D74).1, (rejected_of_err err_D5).2,
    (rejected_of_err err_D6list).2⟩
 
 /-! Non-vacuity of the total part: a typedef cycle is an error, an include loop with a
